@@ -145,7 +145,8 @@ Proof.
     + unfold quiet. split; [reflexivity | split; [reflexivity | intros t'; reflexivity]].
   - destruct (pc_is_idle (t_pc (tasks s rtid))) eqn:E; [|apply QQ; [apply quiet_refl | ds]].
     assert (neutral (pcof s rtid) = true) as N by (unfold pcof; destruct (t_pc (tasks s rtid)); try discriminate; reflexivity).
-    apply enter_close_triple. exact N.
+    eapply triple_trans; [apply QQ; [apply quiet_mark | ds]|].
+    apply enter_close_triple. rewrite pcof_mark. exact N.
   - destruct (pc_is_idle (t_pc (tasks s rtid))) eqn:E; [|apply QQ; [apply quiet_refl | ds]].
     assert (neutral (pcof s rtid) = true) as N by (unfold pcof; destruct (t_pc (tasks s rtid)); try discriminate; reflexivity).
     apply enter_close_triple. exact N.
@@ -165,6 +166,38 @@ Proof.
   intros N s'. split; [ds | split; [reflexivity|]].
   intros t' H. unfold s', pcof, set_pc, set_task, set_tasks, set_lock. cbn.
   rewrite upd_other; [reflexivity|]. intros ->. congruence.
+Qed.
+
+(* ---- the pump's channel and the wake-ups leave the write path's data alone ---- *)
+Lemma triple_of_pump_effect s s1 :
+  pump_effect s s1 -> data_same s s1 -> data_same s s1 /\ wr s1 = wr s /\ holders_kept s s1.
+Proof.
+  intros [Q|(p & E & q & Nq & U)] D; [apply triple_of_quiet; assumption|].
+  eapply triple_of_pcu; [exact U | rewrite E; reflexivity | exact D].
+Qed.
+Lemma data_push s t f : data_same s (push_item s t f).
+Proof.
+  unfold push_item. destruct (pump_owner s) as [p|]; [|ds].
+  destruct (is_ppwait (t_pc (tasks s p))); [destruct (closed s)|]; ds.
+Qed.
+Lemma data_wake s : data_same s (wake_pump_closed s).
+Proof.
+  unfold wake_pump_closed. destruct (pump_owner s) as [p|]; [|ds].
+  destruct (is_ppwait (t_pc (tasks s p))); ds.
+Qed.
+Lemma flags_push s t f :
+  failing (push_item s t f) = failing s /\ shut (push_item s t f) = shut s /\ closed (push_item s t f) = closed s /\
+  table (push_item s t f) = table s.
+Proof.
+  unfold push_item. destruct (pump_owner s) as [p|]; [|repeat split; reflexivity].
+  destruct (is_ppwait (t_pc (tasks s p))); [destruct (closed s) eqn:C|]; repeat split; try reflexivity; cbn; auto.
+Qed.
+Lemma flags_wake s :
+  failing (wake_pump_closed s) = failing s /\ shut (wake_pump_closed s) = shut s /\ closed (wake_pump_closed s) = closed s /\
+  table (wake_pump_closed s) = table s /\ next_sid (wake_pump_closed s) = next_sid s.
+Proof.
+  unfold wake_pump_closed. destruct (pump_owner s) as [p|]; [|repeat split; reflexivity].
+  destruct (is_ppwait (t_pc (tasks s p))); repeat split; reflexivity.
 Qed.
 
 Theorem step_classify s t s' : Inv s -> step s t = Some s' -> step_class s t s'.
@@ -223,13 +256,35 @@ Proof.
       * eapply triple_of_pcu; [apply pcu_finish | exact N0 | ds].
       * eapply triple_trans; [apply feed_class|].
         eapply triple_of_pcu; [apply pcu_finish | apply neutral_after_feed; exact N0 | ds].
+    + (* CSend *)
+      destruct (t_sid (with_prog (tasks s t) rest)); [destruct (t_sclosed (with_prog (tasks s t) rest) || pump_done s)|];
+        inversion H; subst; (eapply triple_trans; [exact T0|]).
+      * eapply triple_of_pcu; [apply pcu_finish | exact N0 | ds].
+      * eapply triple_trans; [apply triple_of_pump_effect; [apply pump_effect_push | apply data_push]|].
+        eapply triple_of_pcu; [apply pcu_finish | eapply neutral_after_pump_effect; [apply pump_effect_push | exact N0] | ds].
+      * eapply triple_of_pcu; [apply pcu_finish | exact N0 | ds].
+    + (* CPump *)
+      destruct (pump_owner s) as [p|].
+      * destruct (negb (Nat.eqb p t)); [|destruct (pump_done s); [|destruct (dq s) as [|[u f] q]; [|destruct (closed s)]]];
+          inversion H; subst; (eapply triple_trans; [exact T0|]).
+        -- eapply triple_of_pcu; [apply pcu_finish | exact N0 | ds].
+        -- eapply triple_of_pcu; [apply pcu_finish | exact N0 | ds].
+        -- eapply triple_of_pcu; [apply pcu_set_task | exact N0 | ds].
+        -- eapply triple_of_pcu; [ | exact N0 | ds].
+           eapply quiet_pcu; [apply (quiet_set_pump s0 q (pushed s0) (pump_owner s0) (pump_done s0))|].
+           eapply pcu_then_quiet; [apply pcu_finish | apply quiet_set_pump].
+        -- eapply triple_of_pcu; [ | exact N0 | ds].
+           eapply quiet_pcu; [apply (quiet_set_pump s0 q (pushed s0) (pump_owner s0) (pump_done s0)) | apply pcu_set_task].
+      * inversion H; subst. eapply triple_trans; [exact T0|].
+        eapply triple_of_pcu; [ | exact N0 | ds].
+        eapply quiet_pcu; [apply (quiet_set_pump s0 (dq s) (pushed s) (Some t) (pump_done s)) | apply pcu_finish].
   - (* PW0 *)
     assert (neutral (pcof s t) = true) as N by (unfold pcof; rewrite Epc; reflexivity).
     apply class_of_triple.
     destruct (closed s); [|destruct (buffering s)]; inversion H; subst.
     + eapply triple_of_pcu; [apply pcu_finish_w | exact N | apply data_finish_w].
-    + eapply triple_of_pcu; [apply pcu_set_pc | exact N | ds].
-    + eapply triple_of_pcu; [apply pcu_set_pc | exact N | ds].
+    + eapply triple_of_pcu; [apply pcu_set_task | exact N | ds].
+    + eapply triple_of_pcu; [apply pcu_set_task | exact N | ds].
   - (* PW1 *)
     assert (neutral (pcof s t) = true) as N by (unfold pcof; rewrite Epc; reflexivity).
     inversion H; subst.
@@ -290,8 +345,12 @@ Proof.
     inversion H; subst. apply class_of_triple. apply enter_close_triple. unfold pcof. rewrite Epc. reflexivity.
   - (* PC1 *)
     assert (neutral (pcof s t) = true) as N by (unfold pcof; rewrite Epc; reflexivity).
-    inversion H; subst. apply class_of_triple. eapply triple_of_pcu; [ | exact N | ds].
-    apply quiet_pcu with (s1 := set_table (set_tasks s (drain (table s) (tasks s))) (next_sid s) []); [|apply pcu_set_pc].
+    cbv zeta in H. inversion H; subst. clear H. apply class_of_triple.
+    set (s1 := wake_pump_closed s).
+    eapply triple_trans; [apply triple_of_pump_effect; [apply pump_effect_wake | apply data_wake]|]. fold s1.
+    assert (neutral (pcof s1 t) = true) as N1 by (eapply neutral_after_pump_effect; [apply pump_effect_wake | exact N]).
+    eapply triple_of_pcu; [ | exact N1 | ds].
+    apply quiet_pcu with (s1 := set_table (set_tasks s1 (drain (table s1) (tasks s1))) (next_sid s1) []); [|apply pcu_set_pc].
     unfold quiet. split; [reflexivity | split; [reflexivity|]]. intros t'. unfold pcof. cbn. apply drain_pc.
   - (* PC2 *)
     assert (neutral (pcof s t) = true) as N by (unfold pcof; rewrite Epc; reflexivity).
@@ -312,6 +371,7 @@ Proof.
   - (* PO1 *)
     assert (neutral (pcof s t) = true) as N by (unfold pcof; rewrite Epc; reflexivity).
     inversion H; subst. apply class_of_triple. eapply triple_of_pcu; [apply pcu_set_task | exact N | ds].
+  - discriminate.
 Qed.
 
 (* ---- flags only ever go from false to true ---- *)
@@ -333,7 +393,9 @@ Proof.
   destruct ev;
     repeat match goal with
            | |- context [match ?x with _ => _ end] => destruct x
-           end; try (apply mono_same; reflexivity); apply mono_enter_close.
+           end; try (apply mono_same; reflexivity);
+    first [apply mono_enter_close
+          | eapply mono_trans; [apply (mono_same s (mark_state s)); reflexivity | apply mono_enter_close]].
 Qed.
 Lemma mono_release s : mono s (release s).
 Proof. unfold release. destruct (release_ws_data (waiters s) s) as (_ & _ & _ & _ & A & B). split; [rewrite A; auto | exact B]. Qed.
@@ -352,6 +414,8 @@ Proof.
     + apply (mono_enter_close s0).
     + split; [intros _; reflexivity | intros A; exact A].
     + apply mono_trans with (feed_ev s0 ev); [apply (mono_feed s0) | apply mono_same; reflexivity].
+    + destruct (flags_push s0 t (psh_frame n payload)) as (A & B & _).
+      apply mono_same; [exact A | exact B].
   - destruct (closed s); [|destruct (buffering s)]; inversion H; subst;
       [apply mono_finish_w | apply mono_same; reflexivity | apply mono_same; reflexivity].
   - inversion H; subst. eapply mono_trans; [|apply mono_finish_w]. apply mono_same; reflexivity.
@@ -364,12 +428,13 @@ Proof.
     + eapply mono_trans; [|apply mono_finish_w].
       apply (mono_release (set_wire s (pkt s + 1)%N (wire s ++ [((pkt s + 1)%N, held)]))).
   - inversion H; subst. apply mono_enter_close.
-  - inversion H; subst. apply mono_same; reflexivity.
+  - cbv zeta in H. inversion H; subst. destruct (flags_wake s) as (A & B & _). apply mono_same; [exact A | exact B].
   - destruct (wr s); inversion H; subst; [apply mono_same; reflexivity|].
     eapply mono_trans; [|apply mono_finish_close]. split; [intros A; exact A | intros _; reflexivity].
   - discriminate.
   - inversion H; subst. apply mono_same; reflexivity.
   - inversion H; subst. apply mono_same; reflexivity.
+  - discriminate.
 Qed.
 
 Lemma calm_back s t s' : step s t = Some s' -> calm s' -> calm s.
